@@ -1001,6 +1001,8 @@ func timeNow(f *Frame, st *state, callee *ssa.Function, args []Val, ins ssa.Inst
 	// monotone clock: site "ghost.clock" holds the last instant at address 0
 	clk := u.arr(st.mem, "ghost.clock", SBV(64))
 	i := timeInstantIdx(resT)
+	// the ghost clock itself stays within [0, 2^62] (assumed of the entry state, preserved by every update)
+	u.ctx.assert("lib:time.Now", implies(st.reach, and(app("bvsle", bvLitU(0, 64), sel(clk, "0")), app("bvsle", sel(clk, "0"), bvLitU(1<<62, 64)))))
 	u.ctx.assert("lib:time.Now", implies(st.reach, app("bvsle", sel(clk, "0"), v.S[i])))
 	u.ctx.assert("lib:time.Now", implies(st.reach, app("bvsle", bvLitU(0, 64), v.S[i])))
 	u.ctx.assert("lib:time.Now", implies(st.reach, app("bvsle", v.S[i], bvLitU(1<<62, 64))))
